@@ -132,6 +132,15 @@ def fs_consts(maxreq, maxnodes, ops, rule='asis', rewrite='asis', emit=False,
                 EmitTr=B(emit_tr))
 
 
+def spellings(p):
+    """non-normal spellings of a relative client path that map to the same
+    place: trailing '/', trailing '/.', 'x/..' suffix, './' prefix, doubled
+    slashes, an 'a/../' detour, a detour through a name that may be a link"""
+    return [p + '/', p + '/.', p + '/a/..', './' + p,
+            p.replace('/', '//') if '/' in p else p + '//',
+            'a/../' + p, 'b/../' + p]
+
+
 def ent(name, typ, t='', sub=()):
     return dict(name=name, type=typ, t=t, sub=list(sub))
 
@@ -227,6 +236,22 @@ def main(ctx):
                   rewrite=variant['rewrite'], bias='chg'),
         fsdefs(build_locs, build_tgts, 'TreesSmall'),
         ['TypeOK', 'StateTable'], view='viewfs', workers=W, timeout=800)
+    # the spelling of every path argument as a dimension: the last request of
+    # a script with its path(s) in normal and non-normal forms (in a two-path
+    # request one path at a time; for symlink every target x every spelling
+    # of the link path, because the spelling of the link path decides the
+    # directory in which the relative target is judged)
+    spelled = sorted(set(build_locs + [x for p in build_locs
+                                       for x in spellings(p)]))
+    sp_tgts = ['..', '../..', '../', './..', '..//..', 'b/..', 'b/../..', 'a',
+               '/', '/a/', '../a', 'b/../a']
+    jobs['fs spelled requests'] = lambda: run_mc(
+        'PathConfineFS', 'fs_spelled',
+        fs_consts(2 if quick else 3, 3, build_ops, rule='strip',
+                  rewrite=variant['rewrite'], bias='chg', emit_tr=True),
+        fsdefs(spelled, sp_tgts if not quick else sp_tgts[:9], 'TreesSmall',
+               norm=build_locs),
+        ['TypeOK'], view='viewfs', workers=W, timeout=800)
     jobs['fs as written'] = lambda: run_mc(
         'PathConfineFS', 'fs_full_inv', fs_consts(4, 3, ALLOPS),
         fsdefs(rp[:5], rel_t[:3], 'TreesSmall'), ['AllTouchedUnderRoot'],
@@ -577,6 +602,7 @@ def replay_fs(ctx, pc, results, rule, quick):
     found = {}          # cause (kind, history) -> example
     cache = {}
     nseq = 0
+    nprobe_extra = 0
     try:
         # (a) simulated behaviours: conformance step by step
         for name in ('fs simulate all', 'fs simulate ok'):
@@ -605,6 +631,14 @@ def replay_fs(ctx, pc, results, rule, quick):
                                 causes, evs)
                 if r['diverged']:
                     ctx.divergence(f'fs behaviour {key}: {r["diverged"]}')
+                if not r['escapes'] and pc.suspicious(r):
+                    done = reqs[:len(r['steps'])]
+                    uses, _d, n = pc.probe_links(world, init, done, r)
+                    nprobe_extra += n
+                    for op, path, causes, evs in uses:
+                        note_escape(pc, world, found, cache,
+                                    init_requests(init) + done +
+                                    [(op, path.encode(), b'')], causes, evs)
         # (b) one script per reachable file-system shape (TLC breadth-first
         #     search over link-building requests) + the probe battery
         res = results['fs link-chain scripts']
@@ -682,6 +716,8 @@ def replay_fs(ctx, pc, results, rule, quick):
                          f'shapes ({nlinks} with links), {len(loops)} '
                          f'cycle-closing requests, {nprobe} probes, '
                          f'{nescaping} shapes with escaping probes')
+        # (b2) spelled requests, through every protocol form of the request
+        nseq += replay_spelled(ctx, pc, results, quick, found, cache, world)
         # (c) fixed regression histories (re-established findings)
         for name, reqs in REGRESSIONS:
             r = pc.run_sequence(world, {}, reqs)
@@ -708,6 +744,99 @@ def replay_fs(ctx, pc, results, rule, quick):
                         'requests': list(setup) + [use]})
     finally:
         world.close()
+
+
+def replay_spelled(ctx, pc, results, quick, found, cache, world3):
+    """Every state-changing request TLC enumerated with its path arguments in
+    normal and non-normal spellings: replayed (monitor after every step, the
+    resulting tree compared with the model's); whenever code and model
+    disagree or a link below the root physically resolves outside it, the
+    probe battery runs as well.  The scripts are spread over the request
+    forms of the protocol: v3 (FXP_SYMLINK standard order, hardlink@openssh),
+    v3 with OpenSSH's reversed FXP_SYMLINK order, v6 (FXP_LINK with the
+    symlink / hard-link flag)."""
+    res = results['fs spelled requests']
+    trs = printed_blocks(res, 'TR')
+    ctx.require(len(trs) > 100, 'no spelled transitions from TLC')
+    seen = set()
+    cases = []
+    for hist, it, fs, esc in trs:
+        k = json.dumps(hist)
+        if k not in seen:
+            seen.add(k)
+            cases.append((hist, it, fs, esc, True))
+    for x in printed_blocks(res, 'LOOP'):
+        k = json.dumps(x[0])
+        if k not in seen:
+            seen.add(k)
+            cases.append((x[0], x[1], None, False, False))
+    cases.sort(key=lambda c: (len(c[0]), json.dumps(c[0])))
+    if quick and len(cases) > 1300:
+        short = [c for c in cases if len(c[0]) <= 1]
+        rest = [c for c in cases if len(c[0]) > 1]
+        cases = short + rest[::len(rest) // 1100 + 1]
+    forms = [dict(sftp_version=3), dict(sftp_version=6),
+             dict(sftp_version=3, openssh_order=True)]
+    n = nprobes = nsusp = 0
+    per_form = {}
+    for fi, kw in enumerate(forms):
+        world = world3 if fi == 0 else pc.ServerWorld(**kw)
+        try:
+            for ci, (hist, it, fs, esc, modelled) in enumerate(cases):
+                linkreq = hist[-1][0] in ('symlink', 'link')
+                if quick or not linkreq:
+                    if ci % len(forms) != fi:
+                        continue        # round robin
+                script = [conv_req(x) for x in hist]
+                init = tree_from_model(pc.model_tree(it))
+                final = pc.model_tree(fs) if modelled else None
+                n += 1
+                per_form[world.form] = per_form.get(world.form, 0) + 1
+                ctx.count(('spelled', world.form,
+                           tuple(pc.req_str(x) for x in script)))
+                if esc:
+                    r = pc.run_sequence(world, init, script)
+                    if not r['escapes']:
+                        ctx.divergence(
+                            f'[{world.form}] model predicts an escape, none '
+                            'observed: ' + '; '.join(pc.req_str(x)
+                                                     for x in script))
+                    else:
+                        idx, causes, evs = r['escapes'][0]
+                        note_escape(pc, world, found, cache,
+                                    init_requests(init) + script[:idx + 1],
+                                    causes, evs)
+                    continue
+                out = pc.run_script(world, init, script, final, set(),
+                                    always=False)
+                nprobes += out['nprobes']
+                nsusp += bool(out['nprobes'])
+                b = out['build']
+                if b['escapes']:
+                    idx, causes, evs = b['escapes'][0]
+                    note_escape(pc, world, found, cache,
+                                init_requests(init) + script[:idx + 1],
+                                causes, evs)
+                for op, path, causes, evs in out['uses']:
+                    note_escape(pc, world, found, cache,
+                                init_requests(init) + script +
+                                [(op, path.encode(), b'')], causes, evs)
+                if modelled:
+                    for d in out['diverged'][:1]:
+                        ctx.divergence(f'[{world.form}] spelled request ' +
+                                       '; '.join(pc.req_str(x) for x in script)
+                                       + ': ' + d)
+                if n % 250 == 1:
+                    ctx.sample({'part': 'spelled request', 'form': world.form,
+                                'script': [pc.req_str(x) for x in script],
+                                'steps': b['steps'][-1:]})
+        finally:
+            if fi != 0:
+                world.close()
+    ctx.notes.append(f'spelled requests: {len(seen)} from TLC, {n} replayed '
+                     f'{per_form}; probe battery triggered on {nsusp} '
+                     f'({nprobes} probes)')
+    return n
 
 
 def init_requests(init):
